@@ -252,6 +252,9 @@ func (a *analysis) checkFunction(fi *fnInfo, out *[]finding) (nSites int) {
 			if br.how != "" {
 				msg += " (" + br.how + ")"
 			}
+			if e.weakCount != "" {
+				msg += "; " + e.weakCount
+			}
 			add("IO-2", s.key, pos, ob.Violation, msg, "exhausted outcome: "+exhaustedText(s),
 				"offending return: "+a.p.Pos(posOfReturn(br.ret)), "states explored: "+itoa(len(e.visited)))
 		default:
@@ -315,9 +318,27 @@ func (a *analysis) checkFunction(fi *fnInfo, out *[]finding) (nSites int) {
 	}
 
 	a.pre1(fi, add)
+	a.pre3(fi, add)
+	a.cnt1(fi, add)
 	a.tok1(fi, add)
 	a.sticky(fi, sticky, add)
 	return nSites
+}
+
+func constStart(p *ssa.Phi, l *ssau.Loop) (int64, bool) {
+	var c0 int64
+	seen := false
+	for i, pred := range l.Header.Preds {
+		if l.Blocks[pred] {
+			continue
+		}
+		k, isC := ssau.ConstInt(p.Edges[i])
+		if !isC || (seen && k != c0) {
+			return 0, false
+		}
+		c0, seen = k, true
+	}
+	return c0, seen
 }
 
 func firstBad(bs []badReturn) badReturn {
@@ -384,6 +405,7 @@ func (a *analysis) pre1(fi *fnInfo, add func(rule, construct string, pos token.P
 	type fill struct {
 		loop  *ssau.Loop
 		makes map[*ssa.MakeSlice]bool
+		idx   map[*ssa.Phi]bool // counters the stores are subscripted with
 	}
 	fills := map[*ssau.Loop]*fill{}
 	ssau.AllInstrs(fi.fn, func(in ssa.Instruction) {
@@ -410,10 +432,17 @@ func (a *analysis) pre1(fi *fnInfo, add func(rule, construct string, pos token.P
 					}
 					f := fills[l]
 					if f == nil {
-						f = &fill{loop: l, makes: map[*ssa.MakeSlice]bool{}}
+						f = &fill{loop: l, makes: map[*ssa.MakeSlice]bool{}, idx: map[*ssa.Phi]bool{}}
 						fills[l] = f
 					}
 					f.makes[ms] = true
+					roots := map[any]bool{}
+					intRoots(ia.Index, roots, 0)
+					for r := range roots {
+						if p, ok := r.(*ssa.Phi); ok && fi.counters[p] == l {
+							f.idx[p] = true
+						}
+					}
 				}
 			}
 		}
@@ -448,8 +477,11 @@ func (a *analysis) pre1(fi *fnInfo, add func(rule, construct string, pos token.P
 				}
 				if ifi, ok := b.Instrs[len(b.Instrs)-1].(*ssa.If); ok {
 					if cc, ok := fi.cmps[ifi]; ok && fi.counters[cc.phi] == l && cc.reached == k {
-						countExits++
-						continue
+						// the loop's own bound; with a constant start value the bound must cover it
+						if c0, known := constStart(cc.phi, l); !known || cc.lb >= c0 {
+							countExits++
+							continue
+						}
 					}
 				}
 				exits = append(exits, exitEdge{b, k})
@@ -457,6 +489,7 @@ func (a *analysis) pre1(fi *fnInfo, add func(rule, construct string, pos token.P
 		}
 		var bad *badReturn
 		var badEdge exitEdge
+		weak := ""
 		overflow := false
 		states := 0
 		for _, ex := range exits {
@@ -479,6 +512,7 @@ func (a *analysis) pre1(fi *fnInfo, add func(rule, construct string, pos token.P
 			if len(e.badReturns) > 0 && bad == nil {
 				br := firstBad(e.badReturns)
 				bad, badEdge = &br, ex
+				weak = e.weakCount
 			}
 		}
 		facts := []string{"arrays made at " + strings.Join(mk, ", "), "count exits: " + itoa(countExits) + ", other exits examined: " + itoa(len(exits)), "states explored: " + itoa(states)}
@@ -489,7 +523,7 @@ func (a *analysis) pre1(fi *fnInfo, add func(rule, construct string, pos token.P
 			add("PRE-1", key, pos, ob.Violation,
 				"the loop fills arrays pre-sized from a declared count but can be left at "+a.p.Pos(blockPos(badEdge.b))+
 					" (not the counter reaching the count) towards the return at "+a.p.Pos(posOfReturn(bad.ret))+" yielding "+whatText(bad.what)+
-					": the unfilled tail is returned as zero-valued placeholder elements",
+					": the unfilled tail is returned as zero-valued placeholder elements"+pick(weak != "", "; "+weak, ""),
 				facts...)
 		default:
 			add("PRE-1", key, pos, ob.Holds, "", facts...)
@@ -500,6 +534,13 @@ func (a *analysis) pre1(fi *fnInfo, add func(rule, construct string, pos token.P
 		e2.fillArr = map[ssa.Value]bool{}
 		for ms := range f.makes {
 			e2.fillArr[ms] = true
+		}
+		e2.pre2set = map[*ssa.Phi]bool{}
+		for p := range f.idx {
+			e2.pre2set[p] = true
+		}
+		for _, p := range fi.exitCtl[l] {
+			e2.pre2set[p] = true
 		}
 		e2.runFill(l)
 		switch {
@@ -518,6 +559,57 @@ func (a *analysis) pre1(fi *fnInfo, add func(rule, construct string, pos token.P
 		default:
 			add("PRE-2", key, pos, ob.Holds, "", facts[0], "every counted iteration stores an element; states explored: "+itoa(len(e2.visited)))
 		}
+	}
+}
+
+// PRE-3 (beyond the design): a completeness check — a branch after a record loop that compares one of
+// the loop's counters with a run-time count and whose "fewer" side ends in error returns only — must
+// compare a *record counter* (see recordCounter) and prove counter >= count + start value.
+func (a *analysis) pre3(fi *fnInfo, add func(rule, construct string, pos token.Pos, v ob.Verdict, msg string, facts ...string)) {
+	if fi.errRes < 0 {
+		return
+	}
+	n := 0
+	for _, b := range fi.fn.Blocks {
+		if len(b.Instrs) == 0 {
+			continue
+		}
+		ifi, ok := b.Instrs[len(b.Instrs)-1].(*ssa.If)
+		if !ok {
+			continue
+		}
+		cc, ok := fi.cmps[ifi]
+		if !ok || cc.constB {
+			continue
+		}
+		l := fi.counters[cc.phi]
+		if l == nil || l.Blocks[b] {
+			continue // the loop's own condition is judged by PRE-1 / IO-4
+		}
+		// is the other side an error guard?
+		e := a.newExplorer(fi, modePRE1)
+		st := newState()
+		e.refine(ifi.Cond, 1-cc.reached == 0, st)
+		e.push(b.Succs[1-cc.reached], 0, b, st)
+		e.run()
+		if e.overflow || len(e.badReturns) > 0 || e.okReturns == 0 {
+			continue
+		}
+		n++
+		key := fi.name + "/count-check#" + itoa(n)
+		pos := ssau.PosOf(ifi)
+		if bp := blockPos(b); bp.IsValid() {
+			pos = bp
+		}
+		rc := a.recordCounter(fi, cc.phi)
+		fact := "counter '" + nameOfPhi(cc.phi) + "', start " + itoa(int(rc.c0)) + ", comparison proves counter >= count" + signed(cc.lb)
+		if rc.ok && cc.lb >= rc.c0 {
+			add("PRE-3", key, pos, ob.Holds, "", fact, "steps by one, every increment stores a record")
+			continue
+		}
+		add("PRE-3", key, pos, ob.Violation,
+			"the check that all declared records were read does not count records: "+rc.describe(a, cc)+
+				" — a file that lost its last record(s) passes the check and the pre-sized / missing tail is returned", fact)
 	}
 }
 
